@@ -10,6 +10,7 @@ from ..nf import NF, Atom, Undecided, app, atoms_of, evalnf, lift, nf_equal, nf_
 from ..values import NONE, Cond, ListV, NoneV, Num, ObjV, OpaqueV, SliceV, StrV, TupleV, valkey
 from .c02 import find_driver_call
 from .common import (
+    mark_index,
     ABSTRACT_SUMMARIES,
     K,
     N,
@@ -67,7 +68,7 @@ def check_adapters_columnwise(ctx):
             bad = {}
             n = 0
             for p in paths:
-                for e in p.events[st.get("n_fit", 0):]:
+                for e in p.events[mark_index(p, "fit-done"):]:
                     for key in ("value", "result"):
                         v = e.data.get(key)
                         if not (isinstance(v, Num) and v.nf is not None):
